@@ -199,7 +199,28 @@ def _shared_condition(rng):
     return case
 
 
-def _multi_case(world, queries, order, sharecond=False):
+def _shared_attribute(rng):
+    """ONE attribute node object (`active = x.f`) used first as a plain comparison operand in a query that is evaluated,
+    then as a boolean condition in a second query built afterwards"""
+    kinds, objs, doms = G.gen_world(rng, ["x"], falsy=False, int_p=0.0)
+    xf = ("attr", ("var", "x"), "f")
+    xa = ("attr", ("var", "x"), "a")
+    q1c = rng.choice([("cmp", "eq", xf, ("lit", False)), ("cmp", "ne", xf, ("lit", True)), ("cmp", "eq", xf, ("lit", True)),
+                      ("and", ("cmp", "eq", xf, ("lit", False)), ("cmp", "ge", xa, ("lit", 1)))])
+    # (the shared node is never the ROOT condition of the second query: a node caches its conditions root at first
+    # use, which is a facet of the recorded finding F-C03-3)
+    q2c = rng.choice([("and", ("truth", xf), ("cmp", "ge", xa, ("lit", rng.randrange(1, 4)))),
+                      ("and", ("cmp", "le", xa, ("lit", rng.randrange(1, 4))), ("truth", xf)),
+                      ("not", ("truth", xf))])
+    sel = [("var", "x")]
+    queries = [{"sel": sel, "cond": q1c}, {"sel": sel, "cond": q2c}]
+    order = [(0, rng.choice([-1, -1, 0, 1])), (1, -1)]
+    case = _multi_case({"objs": objs, "doms": doms, "kinds": kinds}, queries, order, shareattr=True)
+    case.tags = ("multi", "shared-attribute-node", q2c[0])
+    return case
+
+
+def _multi_case(world, queries, order, sharecond=False, shareattr=False):
     q0 = {"sel": [], "cond": None, "objs": world["objs"], "doms": world["doms"]}
     full = G.sx_query({**q0, "sel": [("var", next(iter(world["doms"])))]})
     # reuse the printers of eqlgen for the world part
@@ -210,9 +231,9 @@ def _multi_case(world, queries, order, sharecond=False):
         ids = G._LitIds()
         qparts.append("(qq (sel " + " ".join(G.sx_term(t, ids) for t in q["sel"]) + ") (cond " + G.sx_cond(q["cond"], ids) + "))")
     line = "(multi (order " + " ".join(f"({a} {b})" for a, b in order) + ") " + objs_part + " " + doms_part + \
-           " (queries " + " ".join(qparts) + ")" + (" (sharecond)" if sharecond else "") + ")"
+           " (queries " + " ".join(qparts) + ")" + (" (sharecond)" if sharecond else "") + (" (shareattr)" if shareattr else "") + ")"
     return Case(line, ("multi", f"queries{len(queries)}", f"evals{len(order)}"), "random",
-                {"world": world, "queries": queries, "order": order, "sharecond": sharecond})
+                {"world": world, "queries": queries, "order": order, "sharecond": sharecond, "shareattr": shareattr})
 
 
 def generate(rng, tier, n):
@@ -227,6 +248,8 @@ def generate(rng, tier, n):
             out.append(_warm_shared_sched(rng))
         elif r < 0.7:
             out.append(_shared_condition(rng))
+        elif r < 0.78:
+            out.append(_shared_attribute(rng))
         else:
             out.append(_multi(rng))
     return out
@@ -246,7 +269,8 @@ def revive(case: Case) -> Case:
                 "cond": G._p_cond(dict((p[0], p[1:]) for p in qq[1:])["cond"][0])} for qq in d["queries"]]
     order = [(int(a), int(b)) for a, b in d["order"]]
     case.payload = {"world": world, "queries": queries, "order": order,
-                    "sharecond": any(p == ["sharecond"] for p in s[1:])}
+                    "sharecond": any(p == ["sharecond"] for p in s[1:]),
+                    "shareattr": any(p == ["shareattr"] for p in s[1:])}
     return case
 
 
@@ -336,12 +360,14 @@ def _run_multi(p) -> str:
     objs = G.make_objects(q0)
     V = G.make_vars(q0, objs, one_shot=True)
     memo = {} if p.get("sharecond") else None
-    built = {} if memo is not None else {i: G.build_query({**q0, **q}, V, objs) for i, q in enumerate(queries)}
+    amemo = {} if p.get("shareattr") else None
+    lazy = memo is not None or amemo is not None
+    built = {} if lazy else {i: G.build_query({**q0, **q}, V, objs) for i, q in enumerate(queries)}
     outs = []
     for qi, k in order:
         if qi not in built:
             # shared-condition flavour: a query is built right before its first evaluation, re-using condition objects
-            built[qi] = G.build_query({**q0, **queries[qi]}, V, objs, cond_memo=memo)
+            built[qi] = G.build_query({**q0, **queries[qi]}, V, objs, cond_memo=memo, attr_memo=amemo)
         query, sel, single = built[qi]
         rows = []
         try:
